@@ -9,6 +9,7 @@ import PsVerif.Model.NormCalc
 import PsVerif.Props.C04
 import PsVerif.Props.C01
 import PsVerif.Lemmas.Householder
+import PsVerif.Lemmas.HouseholderLoop
 namespace PsVerif
 open Matrix
 
@@ -145,5 +146,22 @@ theorem householder_step_refines_schur {p q : ℕ} (T : Matrix (Fin (p + 1)) (Fi
 
 /-- non-vacuity: a concrete run with a tie-free trace -/
 example : qrModel #[#[1, 0], #[0, 2], #[3, 1]] = [2, 1, 0] := by decide +kernel
+
+/-- **C03/C04 (L1, the whole loop).** Run the elimination loop of `CCQR.fit` over ℝ (`hhStep`: reflector of
+`qr_reflector` on the rows not yet eliminated, applied to all columns, pivot column zeroed below, `row` advanced – or
+nothing at all on a zero residual) on `Bᵀ` with ANY sequence of pivots: every Gram entry – in particular every squared
+column norm `dlens²` the code computes next – of the rows not yet eliminated is exactly the entry of the exact model's
+state after the same picks.  No rank or shape condition, any number of steps. -/
+theorem householder_loop_refines_schur_model (B : RMat) (m : ℕ) (hB : B.WF B.size m) (picks : List (Fin B.size))
+    (a b : Fin B.size) :
+    tailDot (picks.foldl hhStep (transposeR B m B.size, 0)).1 (picks.foldl hhStep (transposeR B m B.size, 0)).2 a b
+      = ((((picks.map Fin.val).foldl schur (gram B)).get a.val b.val : ℚ) : ℝ) :=
+  householder_loop_refines_model B m hB picks a b
+
+/-- **C03/C04 (the decision).** On candidates with rational squared norms ≥ 0 and rational costs, the code's
+`np.argmax(dlens − costs)` over ℝ (first maximiser) is the model's `firstArgmaxBy scoreGe`. -/
+theorem code_argmax_is_model_argmax (sc : List Score) (hnn : ∀ x ∈ sc, 0 ≤ x.1) :
+    realArgmax (sc.map fun x => Real.sqrt ((x.1 : ℚ) : ℝ) - ((x.2 : ℚ) : ℝ)) = firstArgmaxBy scoreGe sc :=
+  realArgmax_eq_model sc hnn
 
 end PsVerif
